@@ -563,7 +563,7 @@ fn judge_outcome(run: &Run, label: &str, v: usize, e: usize, expect: &Expect, ou
         ChildOutcome::Hang { after_main } => {
             return Err(Fail::new(
                 if *after_main { "C19:hang-small-stack-thread" } else { "C19:hang" },
-                format!("{label}: validation did not finish within {}+{} s (V={v}, E={e})", WATCHDOG_S, WATCHDOG_S * 2),
+                format!("{label}: validation did not finish within the watchdog ({} s, retried with {} s) (V={v}, E={e})", WATCHDOG_S, WATCHDOG_S * 2),
             ));
         }
         ChildOutcome::StackOverflow { after_main, tail } => {
